@@ -119,4 +119,7 @@ pub fn run(rc: &mut RunCtx) {
             rc.inconclusive.push(format!("health gate: only {} of {} mutated streams accepted (< 10%)", acc, acc + rej));
         }
     }
+    if !rc.quick() {
+        rc.run_fuzz(Some(STAGES[0]), 300);
+    }
 }
